@@ -1,7 +1,7 @@
 """C05 — rep-changing conversions (as<T>/coerce_as<T>/in<T>/coerce_in<T>/rep_cast<T>) and the <T> forms
 of will_conversion_overflow / will_conversion_truncate / is_conversion_lossy are sound.
 
-Bounded exhaustive value sweeps over all 11x11 ordered rep pairs x a 14-factor grid against the
+Bounded exhaustive value sweeps over all 11x11 ordered rep pairs x a 30-factor grid (+ unit shapes) against the
 compositional stage oracle of harness/c05_oracle.hh (no random sampling, no solver)."""
 import json
 import os
@@ -26,7 +26,8 @@ def _key(v):
     x = v["x"]
     if "nan" in x:
         x = "%s/%s" % (x, v["xbits"])
-    k = "C05:%s:S=%s:T=%s:N=%s:D=%s:x=%s" % (v["kind"], _sname(v["S"]), _sname(v["T"]), v["N"], v["D"], x)
+    k = "C05:%s:S=%s:T=%s:N=%s:D=%s%s:x=%s" % (v["kind"], _sname(v["S"]), _sname(v["T"]), v["N"], v["D"],
+                                                (":u=%s" % v["u"]) if v.get("u") else "", x)
     if m.category(v["S"], v["T"]) == "fp-int" and "y" in v:
         y = v.get("yint") or v["y"]
         if "nan" in y:
@@ -37,8 +38,8 @@ def _key(v):
 
 def _what(v, builds):
     lib = v["lib"]
-    s = "%s: %s -> %s (common %s), factor %s/%s, x=%s" % (v["kind"], v["S"], v["T"], v["C"], v["N"], v["D"],
-                                                          v["x"])
+    s = "%s: %s -> %s (common %s), factor %s/%s%s, x=%s" % (v["kind"], v["S"], v["T"], v["C"], v["N"], v["D"],
+                                                            (" [%s]" % v["u"]) if v.get("u") else "", v["x"])
     if v.get("xbits"):
         s += " [bits %s]" % v["xbits"]
     s += "; library <T> checkers: truncate=%d overflow=%d lossy=%d" % (lib["trunc"], lib["ovf"], lib["lossy"])
@@ -52,29 +53,75 @@ def _what(v, builds):
     return s + " [%s]" % ", ".join(sorted(builds))
 
 
+CHECKERS = ("will_conversion_overflow", "will_conversion_truncate", "is_conversion_lossy")
+
+
+def _head(s, t, n, d, u):
+    label, src, tgt = m.SHAPES[u][:3]
+    return ("using S = %s; using T = %s; using C = %s; using Tg = %s; auto q = au::make_quantity<%s>(static_cast<S>(1)); "
+            % (s, t, m.common(s, t), tgt or target_expr(n, d), src)), src
+
+
+def _conv_code(s, t, n, d, u):
+    h, src = _head(s, t, n, d, u)
+    code = h + ("(void)q.coerce_in<T>(Tg{}); (void)q.coerce_as<T>(Tg{}); (void)q.in<T>(Tg{}); (void)q.as<T>(Tg{}); "
+                "(void)au::make_quantity<%s>(static_cast<C>(1)).coerce_in(Tg{});" % src)
+    if n == 1 and d == 1:
+        code += " (void)au::rep_cast<T>(q);"
+    return code
+
+
+def _chk_code(s, t, n, d, u, which=CHECKERS):
+    return _head(s, t, n, d, u)[0] + " ".join("(void)au::%s<T>(q, Tg{});" % w for w in which)
+
+
 def _domain(run, cfg, cands):
-    probes = []
-    for idx, (s, t, n, d) in enumerate(cands):
-        c = m.common(s, t)
-        code = ("using S = %s; using T = %s; using C = %s; using Tg = %s; auto q = au::meters(static_cast<S>(1)); "
-                "(void)q.coerce_in<T>(Tg{}); (void)q.coerce_as<T>(Tg{}); (void)q.in<T>(Tg{}); (void)q.as<T>(Tg{}); "
-                "(void)au::will_conversion_overflow<T>(q, Tg{}); (void)au::will_conversion_truncate<T>(q, Tg{}); "
-                "(void)au::is_conversion_lossy<T>(q, Tg{}); (void)au::meters(static_cast<C>(1)).coerce_in(Tg{});"
-                % (s, t, c, target_expr(n, d)))
-        if n == 1 and d == 1:
-            code += " (void)au::rep_cast<T>(q);"
-        probes.append(core.Probe(idx, code, "accept" if m.predicted_domain(s, t, n, d) else "reject",
-                                 {"S": s, "T": t, "N": n, "D": d}))
-    res, _ = core.run_probes(cfg, probes, os.path.join(run.wd, "dom"), "dom", flags=cflags(cfg))
-    dom, mism = [], []
-    for p in probes:
+    """Two compile domains, observed separately: the conversion forms and the three <T> checkers.
+    -> (dom, mism, problems): dom = instances where both compile; mism = conversion compiles although the
+    documented structure predicts a rejection (recorded, swept); problems = [(kind, inst, diag, code)]:
+    'conversion-no-compile' (predicted accept, rejected: the domain shrank) and 'checker-no-compile'
+    (the conversion compiles, a <T> checker does not)."""
+    wd = os.path.join(run.wd, "dom")
+    fl = cflags(cfg)
+    pred = [m.predicted_domain(*c[:4]) for c in cands]
+    pr = [core.Probe(i, _conv_code(*c), "accept" if pred[i] else "reject") for i, c in enumerate(cands)]
+    pc = [core.Probe(i, _chk_code(*c), "accept") for i, c in enumerate(cands) if pred[i]]
+    pz = [core.Probe(i, "auto z = au::rep_cast<%s>(au::ZERO); static_assert(std::is_same<decltype(z), au::Zero>::value, \"\");" % t,
+                     "accept") for i, t in enumerate(core.R11)]
+    (res, _), (resc, _), (resz, _) = core.pmap(lambda a: core.run_probes(cfg, a[0], wd, a[1], flags=fl),
+                                               [(pr, "conv"), (pc, "chk"), (pz, "zero")], workers=3)
+    conv_ok = [i for i in range(len(cands)) if res[i][0] == "accept"]
+    grew = [i for i in conv_ok if not pred[i]]
+    if grew:
+        r2, _ = core.run_probes(cfg, [core.Probe(i, _chk_code(*cands[i]), "accept") for i in grew], wd, "chk2", flags=fl)
+        resc.update(r2)
+    problems, mism = [], []
+    for p in pr:
         v, diag = res[p.pid]
-        if v == "accept":
-            dom.append(cands[p.pid])
-        if v != p.expect:
-            mism.append(dict(p.meta, N=str(p.meta["N"]), D=str(p.meta["D"]), predicted=p.expect, observed=v,
-                             diag=diag))
-    return dom, mism
+        if p.expect == "accept" and v != "accept":
+            problems.append(("conversion-no-compile", cands[p.pid], diag, p.code))
+        elif v != p.expect:
+            s, t, n, d, u = cands[p.pid]
+            mism.append({"S": s, "T": t, "N": str(n), "D": str(d), "predicted": p.expect, "observed": v})
+    bad = [i for i in conv_ok if resc[i][0] != "accept"]
+    if bad:
+        singles = [core.Probe(k, _chk_code(*cands[i], which=(w,)), "accept", {"i": i, "w": w})
+                   for k, (i, w) in enumerate((i, w) for i in bad for w in CHECKERS)]
+        r3, _ = core.run_probes(cfg, singles, wd, "chk1", flags=fl)
+        named = set()
+        for p in singles:
+            if r3[p.pid][0] != "accept":
+                problems.append(("checker-no-compile", cands[p.meta["i"]], "%s<T>: %s" % (p.meta["w"], r3[p.pid][1]), p.code))
+                named.add(p.meta["i"])
+        for i in bad:
+            if i not in named:
+                problems.append(("checker-no-compile", cands[i], "together: %s" % resc[i][1], _chk_code(*cands[i])))
+    for p in pz:
+        if resz[p.pid][0] != "accept":
+            problems.append(("rep-cast-zero", ("-", core.R11[p.pid], 1, 1, 0), resz[p.pid][1], p.code))
+    badset = set(bad)
+    dom = [cands[i] for i in conv_ok if i not in badset]
+    return dom, mism, problems
 
 
 def _jobs(dom, tier):
@@ -83,8 +130,8 @@ def _jobs(dom, tier):
     r = 2 ** 10 if tier == "quick" else 2 ** 14
     lvl = 0 if tier == "quick" else 1
     insts, jobs = {}, []
-    for iid, (s, t, n, d) in enumerate(dom):
-        insts[iid] = (s, t, m.common(s, t), n, d)
+    for iid, (s, t, n, d, u) in enumerate(dom):
+        insts[iid] = (s, t, m.common(s, t), n, d, u)
         if m.is_fp(s):
             jobs.append((iid, "fpset", lvl, SHOW))
         elif BITS[s] <= 16:
@@ -101,25 +148,25 @@ def _full_batches(dom):
     i32 = ("int32_t", "uint32_t")
     b = []
     b.append(("float (all 2^32 bit patterns) -> every integral target, factor 1",
-              [("float", t, 1, 1) for t in ints]))
+              [("float", t, 1, 1, 0) for t in ints]))
     b.append(("int32_t/uint32_t (all 2^32 values) -> every integral target, factor 1",
-              [(s, t, 1, 1) for t in ints for s in i32]))
+              [(s, t, 1, 1, 0) for t in ints for s in i32]))
     b.append(("float (all 2^32 bit patterns) -> 32/64-bit integral targets, factors 2 and 1/2",
-              [("float", t, n, d) for (n, d) in ((2, 1), (1, 2))
+              [("float", t, n, d, 0) for (n, d) in ((2, 1), (1, 2))
                for t in ("int32_t", "uint32_t", "int64_t", "uint64_t")]))
     b.append(("int32_t/uint32_t (all 2^32 values) -> every floating target, factor 1",
-              [(s, t, 1, 1) for t in core.F3 for s in i32]))
+              [(s, t, 1, 1, 0) for t in core.F3 for s in i32]))
     b.append(("int32_t/uint32_t (all 2^32 values) -> 8/32-bit integral targets, factors 3/2 and 2/3",
-              [(s, t, n, d) for (n, d) in ((3, 2), (2, 3)) for t in ("int8_t", "uint8_t", "int32_t", "uint32_t")
+              [(s, t, n, d, 0) for (n, d) in ((3, 2), (2, 3)) for t in ("int8_t", "uint8_t", "int32_t", "uint32_t")
                for s in i32]))
     return [(name, [x for x in lst if x in ds]) for name, lst in b]
 
 
 def _full_jobs(lst, base_id, chunks):
     insts, jobs = {}, []
-    for k, (s, t, n, d) in enumerate(lst):
+    for k, (s, t, n, d, u) in enumerate(lst):
         iid = base_id + k
-        insts[iid] = (s, t, m.common(s, t), n, d)
+        insts[iid] = (s, t, m.common(s, t), n, d, u)
         step = 2 ** 32 // chunks
         for c in range(chunks):
             lo, hi = c * step, (c + 1) * step - 1 if c < chunks - 1 else 2 ** 32 - 1
@@ -140,7 +187,7 @@ def _merge_stats(stats):
             continue
         o = out[k]
         for f, v in s.items():
-            if f == "max_ulp":
+            if f in ("max_ulp", "max_fpscale"):
                 o[f] = max(o[f], v)
             elif f == "nk":
                 o[f] = [a + b for a, b in zip(o[f], v)]
@@ -167,7 +214,7 @@ def _report(run, viols):
                                   % (k, note, json.dumps(v)))
         what = _what(v, builds) + " {second route: %s}" % note
         rp = run.write_replay(k, {"kind": "value", "instance": {"S": v["S"], "T": v["T"], "N": v["N"],
-                                                                "D": v["D"]},
+                                                                "D": v["D"], "u": v.get("u", "")},
                                   "value": v["xbits"] if m.is_fp(v["S"]) else v["x"],
                                   "violation_kind": v["kind"], "observed": v, "what": what,
                                   "how": "bin/check C05 --replay <this file>"})
@@ -177,7 +224,8 @@ def _report(run, viols):
             run.violation(k, what, rp)
     # soundness rule 5: re-run not-yet-known violations from their artefacts before printing them
     for k, v, what, rp in unknown[:40]:
-        if not _rerun(run, rp, quiet=True, rec={"instance": {"S": v["S"], "T": v["T"], "N": v["N"], "D": v["D"]},
+        if not _rerun(run, rp, quiet=True, rec={"instance": {"S": v["S"], "T": v["T"], "N": v["N"], "D": v["D"],
+                                                             "u": v.get("u", "")},
                                                  "value": v["xbits"] if m.is_fp(v["S"]) else v["x"],
                                                  "violation_kind": v["kind"]}):
             raise core.InfraError("C05: violation %s did not reproduce from its replay artefact %s" % (k, rp))
@@ -190,7 +238,8 @@ def _rerun(run, path, quiet=False, rec=None):
     r = rec if rec is not None else json.load(open(path))
     i = r["instance"]
     s, t, n, d = i["S"], i["T"], int(i["N"]), int(i["D"])
-    insts = {0: (s, t, m.common(s, t), n, d)}
+    u = [x[0] for x in m.SHAPES].index(i.get("u", ""))
+    insts = {0: (s, t, m.common(s, t), n, d, u)}
     if m.is_fp(s):
         jobs = [(0, "fpbits", [r["value"]], 8)]
     else:
@@ -219,15 +268,27 @@ def check(run):
 
     phases = {"pch": round(run.elapsed(), 1)}
     cands = m.instances()
-    dom, mism = _domain(run, gcfg, cands)
+    dom, mism, problems = _domain(run, gcfg, cands)
     phases["domain_probes"] = round(run.elapsed(), 1)
-    if len(dom) < 0.8 * len(cands):
+    # lost compile domain: a violation per instance (never a silent skip, never exit 2)
+    for kind, (s_, t_, n_, d_, u_), diag, code in problems:
+        key = "C05:%s:S=%s:T=%s:N=%d:D=%d%s" % (kind, _sname(s_), _sname(t_), n_, d_,
+                                               (":u=%s" % m.SHAPES[u_][0]) if u_ else "")
+        if kind == "checker-no-compile":
+            key += ":fn=" + diag.split(":")[0]
+        what = {"conversion-no-compile": "as<T>/coerce_as<T>/in<T>/coerce_in<T>%s no longer compile for %s -> %s, factor "
+                                         "%d/%d although the factor is representable in the common type: %s",
+                "checker-no-compile": "the rep-changing conversion%s compiles for %s -> %s, factor %d/%d but a <T> checker "
+                                      "does not: %s",
+                "rep-cast-zero": "rep_cast<T>(ZERO)%s%s is not available / not Zero for T=%s (%d/%d): %s"}[kind] % (
+            " / rep_cast<T>" if (n_, d_) == (1, 1) and kind != "rep-cast-zero" else "", s_ if kind != "rep-cast-zero" else "",
+            t_, n_, d_, diag)
+        run.violation(key, what, run.write_replay(key, {"kind": "probe", "cfg": [gcfg.cxx, gcfg.std], "code": code,
+                                                        "what": what}))
+    lost = len({x[1] for x in problems})
+    if len(dom) + lost < 0.8 * len(cands):   # instances lost to a reported violation are not "vacuous"
         raise core.InfraError("vacuity guard: only %d of %d (source,target,factor) instances compile"
                               % (len(dom), len(cands)))
-    pairs = {(s, t) for (s, t, n, d) in dom if (n, d) == (1, 1)}
-    if len(pairs) != 121:
-        raise core.InfraError("vacuity guard: factor-1 conversion does not compile for %d rep pairs"
-                              % (121 - len(pairs)))
     insts, jobs, radius = _jobs(dom, tier)
     stats, viols = [], []
     # The clang UBSan build (decides and observes) covers every instance in both tiers.  The second
@@ -237,7 +298,7 @@ def check(run):
     pidx = {(s, t): i for i, (s, t) in enumerate((s, t) for s in core.R11 for t in core.R11)}
     fidx = {f: i for i, f in enumerate(m.FACTORS)}
     second = [j for j in jobs if tier == "thorough" or
-              (pidx[insts[j[0]][0], insts[j[0]][1]] + fidx[insts[j[0]][3], insts[j[0]][4]]) % 3 == 0]
+              (pidx[insts[j[0]][0], insts[j[0]][1]] + fidx.get((insts[j[0]][3], insts[j[0]][4]), 0) + insts[j[0]][5]) % 3 == 0]
     for cfg, san, opt, name, jl in ((ccfg, True, copt, "clang++ %s ubsan" % copt, jobs),
                                     (gcfg, False, gopt, "g++ %s" % gopt, second)):
         s, v = sw.build_and_run(run, cfg, "main_" + cfg.name, insts, jl, san, ntu=4 * core.NCPU, opt=opt)
@@ -275,19 +336,27 @@ def check(run):
                 wall_prev = (time.time() - t0) * wave_n / len(wave)
                 done += len(wave)
             if done:
-                full_done.append({"batch": name, "instances_completed": ["%s->%s x%s/%s" % x for x in lst[:done]],
+                full_done.append({"batch": name, "instances_completed": ["%s->%s x%s/%s" % x[:4] for x in lst[:done]],
                                   "values_each": 2 ** 32, "wall_s": round(time.time() - t_batch, 1)})
             if done < len(lst):
-                full_skipped.append({"batch": name, "instances_not_run": ["%s->%s x%s/%s" % x for x in lst[done:]],
+                full_skipped.append({"batch": name, "instances_not_run": ["%s->%s x%s/%s" % x[:4] for x in lst[done:]],
                                      "reason": why})
         phases["full sweeps"] = round(run.elapsed(), 1)
 
     stats = _merge_stats(stats)
     if any(s["evals"] == 0 for s in stats):
         raise core.InfraError("vacuous instances: %s" % [s for s in stats if s["evals"] == 0][:3])
-    nkeys = _report(run, viols)
+    nkeys = _report(run, viols) + len(problems)
 
     main = [s for s in stats if s["build"].startswith("clang") and not s["build"].endswith("full")]
+    # vacuity guard on cleared counts: an instance on which the oracle finds inputs whose every stage is
+    # defined and exact, but on which the library clears nothing, was not checked at all (over-reporting
+    # truncation is not forbidden by the statement, so this is "no verdict", not a violation)
+    vac = [s for s in main if s["evals"] - s["must"] > 0 and s["cleared"] == 0]
+    if vac:
+        raise core.InfraError("vacuity guard: %d instance(s) have oracle-defined inputs but the <T> checkers clear none, "
+                              "e.g. %s" % (len(vac), [(v["S"], v["T"], v["N"], v["D"], v["evals"] - v["must"],
+                                                      "trunc_unjustified=%d" % v["trunc_unjust"]) for v in vac[:4]]))
     cat = {}
     for s in main:
         c = cat.setdefault(m.category(s["S"], s["T"]), {"instances": 0, "values": 0, "lossy": 0, "cleared": 0,
@@ -312,7 +381,10 @@ def check(run):
         "evaluations": sum(s["evals"] for s in stats),
         "distinct_nontrivial": sum(1 for s in main if 0 < s["lossy"] < s["evals"]),
         "instances_candidates": len(cands), "instances_in_domain": len(dom),
-        "rep_pairs": len({(s, t) for (s, t, n, d) in dom}),
+        "rep_pairs": len({(s, t) for (s, t, n, d, u) in dom}),
+        "instances_shaped_units": sum(1 for x in dom if x[4]),
+        "factors": ["%d/%d" % f for f in m.FACTORS], "unit_shapes": [x[0] for x in m.SHAPES[1:]],
+        "domain_lost_count": len(problems),
         "domain_mismatch_count": len(mism), "domain_mismatch": mism[:20],
         "by_category": cat,
         "conversions_executed": sum(s["exec"] for s in stats),
@@ -324,7 +396,16 @@ def check(run):
                                              if m.category(s["S"], s["T"]) == "fp-fp"),
             "fp_to_fp_scaling_overflow_within_8eps_of_max": sum(s["band"] for s in main
                                                                   if m.category(s["S"], s["T"]) == "fp-fp"),
+            "int_to_fp_overflow_reported_for_value_at_or_above_max_minus_8eps": sum(
+                s["band"] for s in main if m.category(s["S"], s["T"]) == "int-fp"),
+            "fp_to_fp_cleared_between_max_and_max_plus_half_ulp": sum(s["band_stage3"] for s in main),
+            "floating_stage2_between_4_and_64_ulp_from_exact": sum(s["band_fpscale"] for s in main),
+            "unsigned_wrap_inside_checker_on_cleared_input": sum(s["ub_chk_cleared_wrap"] for s in stats),
         },
+        "recorded_not_judged": {
+            "truncation_reported_although_every_stage_exact": sum(s["trunc_unjust"] for s in main),
+        },
+        "max_ulp_error_floating_stage2_vs_exact": max([s["max_fpscale"] for s in stats] + [0.0]),
         "max_ulp_error_integral_source_to_floating_target": max([s["max_ulp"] for s in stats] + [0.0]),
         "ubsan_events_on_cleared_inputs": sum(s["ub_chk_cleared"] + s["ub_conv"] for s in stats),
         "ubsan_events_inside_checkers_on_lossy_inputs": ub,
@@ -337,14 +418,21 @@ def check(run):
                      "values": s["evals"], "lossy": s["lossy"], "cleared_and_executed": s["exec"],
                      "first_cleared_value": s["first_cleared"], "first_lossy_value": s["first_lossy"]}
                     for s in main[::step]][:10],
-        "rule": ("instances = all 11x11 ordered (source rep S, target rep T) pairs x the 14-factor grid "
-                 "{1,2,3,10,1000,1/2,1/3,1/1000,3/2,2/3,5/9,127/5000,2^31,1/2^31} for which the conversion "
-                 "compiles (observed by compiling each alone; source unit Meters, target Meters*D/N). Values: "
+        "rule": ("instances = all 11x11 ordered (source rep S, target rep T) pairs x the 30-factor grid (key `factors`: "
+                 "the 14 of round 1 plus factors that separate S, C and T -- 200, 40000, 65537, 3e9, 1e12, 2^63, the prime "
+                 "2^64-59, their reciprocals, (2^31-1)/(2^31-3), 1250/381) for which the conversion compiles "
+                 "(conversion forms and <T> checkers are compiled separately, each instance alone where it matters: a "
+                 "conversion that stops compiling inside the predicted domain, or a checker that does not compile where "
+                 "the conversion does, is a violation; source unit Meters, target Meters*D/N), plus the unit shapes of key "
+                 "`unit_shapes` (QuantityMaker slots, prefixed/compound/named library units, identity and equivalent "
+                 "targets, rep_cast on a non-Meters unit) on a stratified quarter of the rep pairs. Values: "
                  "every value of 8/16-bit sources; breakpoint-complete windows for 32/64-bit integral sources; "
                  "for floating sources a structured fully enumerated set (+-0, denormals, every power of two "
                  "with nextafter neighbours, exponent x mantissa patterns, eighths grid, integer/half-integer "
-                 "neighbourhoods and +-64..256-ulp nextafter windows around every integral/floating limit and "
-                 "its pre-image under the factor, +-inf, quiet/signalling NaNs); thorough adds all 2^32 float "
+                 "neighbourhoods and +-64..256-ulp nextafter windows around every integral/floating limit (incl. "
+                 "LDBL_MAX) and its pre-image under the factor, the inputs k*D for the 7 integers k around L/N of every "
+                 "integral limit L (scaled value integer-valued next to L) and the 9 integers around L*D/N, +-inf, "
+                 "quiet/signalling NaNs); thorough adds all 2^32 float "
                  "bit patterns / all 2^32 int32/uint32 values for the listed batches. Each value: the three <T> "
                  "checkers are called, the stage oracle decides which stages are defined, and only then the "
                  "five conversion forms are executed and compared. An instance is non-trivial when both a "
@@ -360,8 +448,17 @@ def check(run):
         "compiled harness faithfully; ISO mode, no FMA contraction",
         "the independent common-type table (vf/c05_model.common) is cross-checked against the compiler's "
         "std::common_type by a static_assert in every sweep TU",
-        "stage 2 in a floating common type takes the library's own same-rep conversion result as given (that "
-        "stage is C03/C04's subject); it must be finite for a finite input",
+        "stage 2 in a floating common type takes the library's own same-rep conversion result as given (the "
+        "statement's 'computed floating result'); it must be finite for a finite input, and it must be a scaling by "
+        "the factor at all: more than 64 ulp(C) from the exact x*N/D (binary128 reference, second route Fraction) is a "
+        "violation, (4, 64] ulp a counted don't-care band",
+        "fp -> narrower fp: a cleared finite y with max(T) < |y| < max(T) + ulp/2 (a round-to-nearest cast gives "
+        "max(T)) is a counted don't-care, neither judged nor executed",
+        "unsigned wrap-around inside a <T> checker on an input it clears is counted, not judged (the statement "
+        "constrains the conversion's steps; those are observed when the conversion itself runs); signed overflow, "
+        "float-cast overflow and other UB events inside a checker on a cleared input remain violations",
+        "QuantityPoint conversions are not swept: points have no <T> checkers and use a different intermediate rep "
+        "(IntermediateRep/MakeSigned), so a Quantity-cleared input says nothing about them",
         "integral source -> floating target: 'exact' is demanded as |result - x*N/D| <= 2 ulp(T) (binary128 "
         "reference); (2,3] ulp is a counted don't-care band, > 3 ulp a violation",
         "floating target, non-finite input: the lossy verdict is a don't-care (the statement only names integral "
@@ -375,6 +472,16 @@ def replay(path):
     run = core.Run("C05", "quick", LEVEL)
     run.wd = os.path.join(core.BUILD, "C05", "replay")
     os.makedirs(run.wd, exist_ok=True)
+    r0 = json.load(open(path))
+    if r0.get("kind") == "probe":
+        cfg = core.Cfg(*r0["cfg"])
+        res, _ = core.run_probes(cfg, [core.Probe(0, r0["code"], "accept")], run.wd, "rp", flags=cflags(cfg))
+        if res[0][0] != "accept":
+            print("reproduced: %s" % res[0][1])
+            print("VIOLATION property=C05 replay=%s" % path)
+            return 1
+        print("not reproduced on the current tree: the probe compiles")
+        return 0
     if _rerun(run, path):
         print("VIOLATION property=C05 replay=%s" % path)
         return 1
